@@ -229,3 +229,22 @@ def controlling(body, bb):
         c, neg = switch_cond(body, t)
         out.append((c, edge_truth(lab, neg), describe_cond(body, t, lab), t, tgt, lab))
     return out
+
+
+def affine_trace(body, op, depth=0):
+    """(Trace of the base, constant offset) for SeqNr/integer expressions built from one source by +k / -k"""
+    t = trace(body, op)
+    if t.kind == "call" and not t.fields and depth < 6:
+        c = t.root[1]
+        if call_matches(c, ("Add::add",)) and c.args[1].kind == "const" and isinstance(c.args[1].scalar, int):
+            b, k = affine_trace(body, c.args[0], depth + 1)
+            return b, k + c.args[1].scalar
+        if call_matches(c, ("Sub::sub",)) and c.args[1].kind == "const" and isinstance(c.args[1].scalar, int):
+            b, k = affine_trace(body, c.args[0], depth + 1)
+            return b, k - c.args[1].scalar
+    return t, 0
+
+
+def affine(body, op):
+    t, k = affine_trace(body, op)
+    return t.describe(), k
